@@ -337,6 +337,7 @@ func (r *Runner) fail(sig, detail string) {
 }
 
 func (r *Runner) close() {
+	r.freshEnd() // reorgfresh.go
 	if r.n != nil {
 		r.n.Close()
 		r.n = nil
@@ -493,6 +494,7 @@ func (r *Runner) state(res string, evs []node.Event) string {
 			r.fail("c04-cached-tip-not-database-tip", fmt.Sprintf("cached tip %x at %d, database index ends with %x", []byte(t.Header.ID), t.Header.Height, top))
 		}
 	}
+	r.finAboveTip(finOK, f)              // stale.go
 	r.afterStepOracle(finOK, f, prevFin) // inject.go (judged after EVERY step, failed or not)
 	r.orderOracle()
 	r.noteEvents(evs)
@@ -743,6 +745,7 @@ func (r *Runner) Run(ops []string) (out []string, fails []corr.Fail) {
 	for i, op := range ops {
 		r.op = i
 		line := r.safeStep(op)
+		r.freshStep(op) // reorgfresh.go: after a removal, a fresh node given only the surviving chain must agree
 		out = append(out, line)
 	}
 	return out, r.fails
@@ -791,7 +794,7 @@ func (r *Runner) step(op string) string {
 	if k := a["inj"]; k != "" {
 		// failure injection (inject.go): armed for this step only
 		switch w[0] {
-		case "pv", "proc", "del", "delat", "till":
+		case "pv", "proc", "del", "delat", "till", "delarg":
 			if n.Exec == nil {
 				return "no-node"
 			}
@@ -937,6 +940,8 @@ func (r *Runner) step(op string) string {
 			return "unsupported"
 		}
 		return r.deleteOp(b, a["st"] == "1", fmt.Sprintf("deleteBlock(block at %d)", h))
+	case "delarg":
+		return r.staleDelete(a) // stale.go: Executer.deleteBlock with an explicit (stale / foreign) argument
 	case "till":
 		// deleteTillCommonBlock of the fast synchroniser with the block at height h as common block
 		if n.Tip() == nil {
@@ -1047,6 +1052,8 @@ func (r *Runner) step(op string) string {
 		return r.twin()
 	case "settle":
 		return r.settle(a) // durable.go
+	case "forge":
+		return r.forgeOp(a) // reorgfresh.go
 	}
 	return "bad-op"
 }
